@@ -1,3 +1,53 @@
 import B6.Driver.Common
-/-! Driver for C21 — stub (the check for this property is not built yet). -/
-def main : IO Unit := B6.Driver.run { σ := Unit, init := (), step := fun s _ _ => (s, .bad) }
+import B6.Model.VM
+/-!
+Driver for C21.  Stateless: every line carries a whole program.
+
+ops
+  `compile <expr>`  answer `[instr …]` | `err` | `panic`
+        model: `VM.compile` rendered like `api.VerifCompileDump`; a difference is `diff` (the compiler
+        model no longer follows the code).
+  `eval <expr>`     answer `val <value>` | `err` | `panic` | `crash` | `hang`
+        property predicate: the implementation's answer equals the **reference interpreter's**
+        (`Interp.interp`): same value, or `err` where the interpreter reports an error; never a panic.
+        `ok` when it also equals the VM model's answer, `diff <vm model>` when only the VM model is off.
+        When the predicate fails and the VM model predicts exactly the implementation's answer and the
+        program has a lambda using a parameter of an enclosing lambda (`Expr.hasOpenLambda`), the
+        failure is the recorded finding: `propfail eval class=closure-registers`.
+-/
+open B6.Driver B6.Model
+namespace B6.Driver.C21
+
+def fuel : Nat := 4000
+
+def renderDump : Res (List VM.Instr) → String
+  | .ok code => renderList (code.map VM.Instr.render)
+  | .error .error => "err"
+  | .error .panic => "panic"
+  | .error .fuel => "fuel"
+
+def step (_ : Unit) (op impl : String) : Unit × Verdict :=
+  match words op with
+  | "compile" :: _ =>
+    match Expr.parse (sdrop op 8) with
+    | none => ((), .bad)
+    | some e =>
+      let m := renderDump (VM.compile e)
+      ((), if impl == m then .ok else .diff m)
+  | "eval" :: _ =>
+    match Expr.parse (sdrop op 5) with
+    | none => ((), .bad)
+    | some e =>
+      let ref := Res.render (interp fuel e)
+      let vm := Res.render (VM.run fuel e)
+      if ref == "fuel" || vm == "fuel" then ((), .bad)
+      else if impl == ref then ((), if impl == vm then .ok else .diff vm)
+      else if impl == vm && e.hasOpenLambda then ((), .propfail "eval class=closure-registers")
+      else ((), .propfail ("eval want=" ++ ref ++ " vm-model=" ++ vm))
+  | _ => ((), .bad)
+
+def family : Family := { σ := Unit, init := (), step := step }
+
+end B6.Driver.C21
+
+def main : IO Unit := B6.Driver.run B6.Driver.C21.family
